@@ -95,6 +95,44 @@ def check(run):
                     run.sample(dict(desc, galaxies=ngal, thread_counts='1..16'))
                 if run.too_many():
                     return
+    # ---- tables ordered by host mass (halos ascending, particles grouped by host), every random number tiny (1e-9) so that whatever has a
+    # positive occupation width is selected, secondary-bias terms on: thread blocks that hold only light hosts, only heavy hosts, or
+    # the hosts around the occupation threshold
+    for j in range(6 if run.quick else 60):
+        k += 1
+        kk = 4 * j + 1 + (j % 3)  # with environment columns, all parameter styles
+        case = c09.make_case(rng, ref, kk, sizes=[[300, 1003, 4099][j % 3]])
+        halo, part = case['halo'], case['part']
+        if not len(part['pinds']):
+            continue
+        halo['hmass'][:] = np.sort(halo['hmass'])
+        order = np.argsort(part['pinds'], kind='stable')
+        for name in list(part):
+            if isinstance(part[name], np.ndarray) and len(part[name]) == len(order):
+                part[name] = np.ascontiguousarray(part[name][order])
+        part['phmass'][:] = halo['hmass'][part['pinds']]
+        halo['hrandoms'][:] = 1e-9  # (not 0: a random number of exactly 0 is also "inside" a slice of zero width)
+        part['prandoms'][:] = 1e-9
+        for t, p_ in case['tracers'].items():
+            p_.update(Acent=[-0.9, 0.8][j % 2], Bcent=[-0.6, 0.5][(j // 2) % 2], Asat=0.4, Bsat=-0.3)
+        desc = dict(case['desc'], family='mass-ordered tables, all randoms 1e-9')
+        run.progress(desc)
+        exp, info = hodref.reference_catalog(ref, halo, part, case['tracers'], case['params'], case['enable_ranks'], case['rsd'])
+        base = None
+        for nt in range(1, 17):
+            run.ev()
+            got = c09.run_real(GH, case, nt)
+            if nt == 1:
+                base = got
+                if not (info['ambc'].any() or info['ambs'].any()):
+                    c09.compare_catalog(run, got, exp, dict(desc, Nthread=1), case['params']['Lbox'], key_prefix='catalogue-vs-reference')
+                continue
+            d = same(base, got)
+            run.nt(('mass-ordered', j, nt))
+            if d:
+                run.violation('catalogue-depends-on-nthread', dict(tracer=d[0], column=d[1], Nthread=nt, **desc))
+                break
+        run.count('mass_ordered_cases')
     # ---- exhaustive small-size sweep: every table size 1..Nmax x every thread count, with *every* host and particle
     # selected (random 0, wide first slice), so that a host or particle falling outside all thread blocks is a missing row
     Nmax = 130 if run.quick else 700
